@@ -23,7 +23,7 @@ package masks
 //@   ensures [nil-msg] isnil(msg) ==> isnil(res)
 //@   ensures [clone] old(recv.fields) != nil && !isnil(msg) ==> fresh(res) && sametype(res, msg) && !isnil(res)
 //@   ensures [projection] old(recv.fields) != nil && !isnil(msg) && len(old(recv.fields.Paths)) > 0 ==> msgval(res) == filtered(old(msgval(msg)), old(recv.fields.Paths))
-//@   ensures [empty-mask] (old(recv.writableFields) == nil || len(old(recv.writableFields.Paths)) > 0) && old(recv.updateMask) != nil && len(old(recv.updateMask.Paths)) == 0 ==> msgval(dst) == old(msgval(dst))
+//@   ensures [empty-mask] old(recv.fields) != nil && !isnil(msg) && len(old(recv.fields.Paths)) == 0 ==> msgval(res) == emptymsg(msg)
 //@   ensures [argument-untouched] msgval(msg) == old(msgval(msg))
 //@   modifies nothing
 //@
@@ -32,7 +32,7 @@ package masks
 //@   requires [mask-valid] maskFits(recv.fields, msg)
 //@   ensures [nil-mask] old(recv.fields) == nil ==> msgval(msg) == old(msgval(msg))
 //@   ensures [projection] old(recv.fields) != nil && !isnil(msg) && len(old(recv.fields.Paths)) > 0 ==> msgval(msg) == filtered(old(msgval(msg)), old(recv.fields.Paths))
-//@   ensures [empty-mask] (old(recv.writableFields) == nil || len(old(recv.writableFields.Paths)) > 0) && old(recv.updateMask) != nil && len(old(recv.updateMask.Paths)) == 0 ==> msgval(dst) == old(msgval(dst))
+//@   ensures [empty-mask] old(recv.fields) != nil && !isnil(msg) && len(old(recv.fields.Paths)) == 0 ==> msgval(msg) == emptymsg(msg)
 //@   modifies msgs
 //@
 //@ func (*ResponseFilter).Validate(msg) (err)
